@@ -33,10 +33,11 @@ def build_oracle():
     for f in ("Grid.vo", "GridObs.vo"):
         if not os.path.exists(os.path.join(C.COQ, f)):
             return False, "coq/%s missing (the model does not compile)" % f
-    rc, out = C.sh(["sh", os.path.join(ODIR, "build.sh"), C.COQ], timeout=900)
-    if rc != 0 or not os.path.exists(os.path.join(ODIR, "oracle")):
-        return False, out
-    shutil.copy2(os.path.join(ODIR, "oracle"), ora)
+    with C.GlobalLock("oracle"):
+        rc, out = C.sh(["sh", os.path.join(ODIR, "build.sh"), C.COQ], timeout=900)
+        if rc != 0 or not os.path.exists(os.path.join(ODIR, "oracle")):
+            return False, out
+        shutil.copy2(os.path.join(ODIR, "oracle"), ora)
     return True, out
 
 def build_harness():
@@ -66,10 +67,11 @@ def float_phase(tier, wd):
         if not os.path.exists(os.path.join(C.COQ, "GridFloat.vo")):
             res["error"] = "coq/GridFloat.v does not compile"; return res
         if not os.path.exists(ora) or os.path.getmtime(ora) < max(os.path.getmtime(p) for p in srcs):
-            rc, out = C.sh(["sh", os.path.join(fdir, "build.sh"), C.COQ], timeout=900)
-            if rc != 0 or not os.path.exists(os.path.join(fdir, "oracle")):
-                res["error"] = "INTERNAL oracle/c20f does not build: " + out[-800:]; return res
-            shutil.copy2(os.path.join(fdir, "oracle"), ora)
+            with C.GlobalLock("oracle"):
+                rc, out = C.sh(["sh", os.path.join(fdir, "build.sh"), C.COQ], timeout=900)
+                if rc != 0 or not os.path.exists(os.path.join(fdir, "oracle")):
+                    res["error"] = "INTERNAL oracle/c20f does not build: " + out[-800:]; return res
+                shutil.copy2(os.path.join(fdir, "oracle"), ora)
         ok, log, hbin = C.build_harness("c20f")
     if not ok:
         res["error"] = "harness/c20f no longer fits the exported API of modules/dagaz (NewVector3f, Dot, Cross, ToProtobuf): " + log[-400:]; return res
